@@ -79,6 +79,19 @@ impl Transformer<Rec, (u8, u8)> for Checked {
     }
 }
 
+// an arbitrary dataset: symbolic record tag and target, and sample weights that are absent, consistent with the one
+// sample, or of a different length (the blanket impls must not look at the dataset before the guard has spoken)
+fn any_dataset() -> DatasetBase<Rec, u8> {
+    let ds: DatasetBase<Rec, u8> = DatasetBase::new(Rec { tag: kani::any() }, kani::any());
+    let wl: u8 = kani::any();
+    kani::assume(wl < 3);
+    match wl {
+        0 => ds,
+        1 => ds.with_weights(ndarray::Array1::from(vec![0.5f32])),
+        _ => ds.with_weights(ndarray::Array1::from(vec![0.5f32, 1.5])),
+    }
+}
+
 fn any_params() -> MockParams {
     MockParams { verdict_ok: kani::any(), err: kani::any(), c: Checked { v: kani::any(), train_fails: kani::any() } }
 }
@@ -88,7 +101,7 @@ fn any_params() -> MockParams {
 #[kani::stub(alloc::fmt::format, fmt_stub)]
 fn c04_blanket_fit() {
     let p = any_params();
-    let ds: DatasetBase<Rec, u8> = DatasetBase::new(Rec { tag: kani::any() }, kani::any());
+    let ds = any_dataset();
     let r: Result<(u8, u8, u8), TrainErr> = p.fit(&ds);             // the blanket impl (MockParams has no own Fit)
     let (checks, trains) = unsafe { (CHECK_CALLS, TRAIN_CALLS) };
     if p.verdict_ok {
@@ -101,6 +114,7 @@ fn c04_blanket_fit() {
     }
     assert!(checks == 1);
     kani::cover!(p.verdict_ok && r.is_ok());
+    kani::cover!(p.verdict_ok && r.is_ok() && ds.weights().map(|w| w.len()) == Some(2));
     kani::cover!(p.verdict_ok && r.is_err());
     kani::cover!(!p.verdict_ok && p.c.train_fails);
     kani::cover!(!p.verdict_ok && !p.c.train_fails);
@@ -111,7 +125,7 @@ fn c04_blanket_fit() {
 #[kani::stub(alloc::fmt::format, fmt_stub)]
 fn c04_blanket_fit_with() {
     let p = any_params();
-    let ds: DatasetBase<Rec, u8> = DatasetBase::new(Rec { tag: kani::any() }, kani::any());
+    let ds = any_dataset();
     let model: u8 = kani::any();
     let r: Result<(u8, u8, u8, u8), TrainErr> = p.fit_with(model, &ds);
     let (checks, trains) = unsafe { (CHECK_CALLS, TRAIN_CALLS) };
